@@ -37,14 +37,20 @@ class VOps:
 
     @staticmethod
     def lt(a, b):
+        if isinstance(a[1], int) and a[1] == b[1]:
+            return a[0] < b[0]
         return a[0] * b[1] < b[0] * a[1]
 
     @staticmethod
     def le(a, b):
+        if isinstance(a[1], int) and a[1] == b[1]:
+            return a[0] <= b[0]
         return a[0] * b[1] <= b[0] * a[1]
 
     @staticmethod
     def eq(a, b):
+        if isinstance(a[1], int) and a[1] == b[1]:
+            return a[0] == b[0]
         return a[0] * b[1] == b[0] * a[1]
 
     @staticmethod
@@ -207,12 +213,7 @@ mon_C02q.needs_snaps = True
 
 def exact_mult(m_raw, S):
     "multiplier raw value (m*S) -> m as a z3 term"
-    from symex.core import exact_div
-    e = lz(m_raw)
-    r = exact_div(e, S)
-    if r is None:
-        return e / S
-    return r
+    return lz(m_raw // S)
 
 
 # ---------------------------------------------------------------------------------------------------
@@ -436,3 +437,477 @@ def mon_C09(ctx):
             defeat_round = A['round']
         prev = A
     ctx.reach('history-walked')
+
+
+# ---------------------------------------------------------------------------------------------------
+# helpers for ballot-level monitors
+
+def cval(x):
+    "concrete value of something the path condition has pinned down (weights, divisor tallies): int"
+    from symex import core
+    if isinstance(x, int):
+        return x
+    return core.ENGINE.realize(lz(x)) if core.ENGINE is not None and not z3.is_int_value(z3.simplify(lz(x))) else z3.simplify(lz(x)).as_long()
+
+
+def pairv(x, S):
+    "snapshot raw value (int/SymInt, or [num, den] for rational) -> (num term, den int)"
+    if isinstance(x, list):
+        return lz(x[0]), cval(x[1])
+    return lz(x), S
+
+
+def a_eq(ctx, a, b):
+    "a == b in the arithmetic's own sense (pairs with the same integer denominator for fixed/guarded)"
+    if ctx.E.V.name == 'guarded' and ctx.E.V.guard > 0:
+        g = guarded_geps(ctx.E)
+        d = a[0] - b[0]
+        return z3.And(d < g, -d < g)
+    return VOps.eq(a, b)
+
+
+def a_lt(ctx, a, b):
+    if ctx.E.V.name == 'guarded' and ctx.E.V.guard > 0:
+        g = guarded_geps(ctx.E)
+        return b[0] - a[0] >= g
+    return VOps.lt(a, b)
+
+
+def a_le(ctx, a, b):
+    return z3.Not(a_lt(ctx, b, a))
+
+
+def name2cid(ctx):
+    return {c.name: c.cid for c in ctx.E.C}
+
+
+def mult_of(m_raw, S):
+    "python-side multiplier raw -> z3 term of the integer multiplier"
+    if isinstance(m_raw, list):
+        return lz(m_raw[0])         # rational: numerator m, denominator 1
+    return exact_mult(m_raw, S)
+
+
+# ---------------------------------------------------------------------------------------------------
+# C06
+
+QUIESCENT = ('round', 'transfer', 'end', 'count')
+
+
+def mon_C06(ctx):
+    if ctx.exc is not None or ctx.method != 'wigm':
+        return
+    from fractions import Fraction
+    S = ctx.S
+    rational = rec.is_rational(ctx.E.V)
+    n2c = name2cid(ctx)
+    prev = None
+    PW = None
+    for sn in ctx.snaps:
+        tag, msg = sn['tag'], sn['msg']
+        bs = sn['ballots']
+        cs = sn['cands']
+        q = pairv(sn['quota'], S)
+        # ballot values are pinned down by the path condition (each was realised when it was multiplied by its
+        # multiplier): work with their concrete values
+        W = []
+        for (idx, w, m, rk) in bs:
+            if isinstance(w, list):
+                W.append(Fraction(cval(w[0]), cval(w[1])))
+            else:
+                W.append(Fraction(cval(w), S))
+        for w in W:
+            if w < 0 or w > 1:
+                ctx.bad('weight-out-of-range', TRUE)
+        if prev is not None:
+            for i, ((idx, w, m, rk), (pidx, pw, pm, prk)) in enumerate(zip(bs, prev['ballots'])):
+                if W[i] > PW[i]:
+                    ctx.bad('weight-increased', TRUE)
+                if idx < pidx:
+                    ctx.bad('ballot-moved-backwards', TRUE)
+        if tag in QUIESCENT:
+            ctx.reach('quiescent-point')
+            for cid, (state, pending, vote, quot, kf) in cs.items():
+                if state == 'hopeful' or (state == 'elected' and pending):
+                    den = 1
+                    for i, (idx, w, m, rk) in enumerate(bs):
+                        if idx < len(rk) and rk[idx] == cid:
+                            den = den * W[i].denominator // __import__('math').gcd(den, W[i].denominator)
+                    terms = [z3.IntVal(0)]
+                    for i, (idx, w, m, rk) in enumerate(bs):
+                        if idx < len(rk) and rk[idx] == cid and W[i] != 0:
+                            terms.append(mult_of(m, S) * int(W[i] * den))
+                    v = pairv(vote, S)
+                    # vote/vden == sum/den
+                    ctx.bad('tally-differs-from-ballot-values:%s' % tag, v[0] * den != z3.Sum(terms) * v[1])
+            for i, (idx, w, m, rk) in enumerate(bs):
+                for j in range(min(idx, len(rk))):
+                    if cs[rk[j]][0] == 'hopeful':
+                        ctx.bad('ballot-skipped-a-hopeful-candidate', TRUE)
+                if tag != 'end' and idx < len(rk) and cs[rk[idx]][0] == 'defeated' and W[i] != 0:
+                    if ctx.rule == 'mpls':
+                        continue    # documented: ballots of candidates defeated in the final round are not transferred
+                    ctx.bad('ballot-rests-on-defeated-candidate:%s' % tag, mult_of(m, S) != 0)
+        if prev is not None and tag == 'transfer' and msg.startswith(SURPLUS_MSG):
+            ctx.reach('surplus-transfer-checked')
+            nm = msg.split(': ', 1)[1].rsplit(' (', 1)[0]
+            c0 = n2c.get(nm)
+            if c0 is None:
+                ctx.bad('surplus-transfer-names-nobody', TRUE)
+            else:
+                pv = pairv(prev['cands'][c0][2], S)
+                v = Fraction(cval(pv[0]), pv[1])
+                nv = pairv(cs[c0][2], S)
+                ctx.bad('elected-does-not-keep-quota', z3.Not(VOps.eq(nv, q)))
+                for i, ((idx, w, m, rk), (pidx, pw, pm, prk)) in enumerate(zip(bs, prev['ballots'])):
+                    on_c0 = pidx < len(prk) and prk[pidx] == c0
+                    if not on_c0:
+                        if W[i] != PW[i]:
+                            ctx.bad('surplus-transfer-touched-other-ballot', TRUE)
+                        if idx != pidx:
+                            ctx.bad('surplus-transfer-moved-other-ballot', TRUE)
+                        continue
+                    if rational:
+                        # exact: w' = w * (v - q) / v   <=>   (w - w') * v == w * q,  q = qn/qd
+                        lhs = (PW[i] - W[i]) * v          # Fraction
+                        rhs = PW[i]
+                        ctx.bad('transfer-value-not-exact', q[0] * rhs.numerator * lhs.denominator != lhs.numerator * rhs.denominator * q[1])
+                    else:
+                        wn, pwn, vn = int(W[i] * S), int(PW[i] * S), int(v * S)
+                        sn_ = vn - q[0]                    # surplus, raw (symbolic through the quota)
+                        # w' v <= w s  (never rounded up)   and   w s < (w' + 2) v  (at most the two truncations)
+                        ctx.bad('transfer-value-rounded-up', wn * vn > pwn * sn_)
+                        ctx.bad('transfer-value-too-small', pwn * sn_ >= (wn + 2) * vn)
+                        # to the last digit: old value times surplus over tally, truncated once (fused) or after each of
+                        # the two operations (multiply, then divide) -- the two forms the rules prescribe
+                        prod = pwn * sn_
+                        one_step = prod / z3.IntVal(vn)
+                        two_step = ((prod / z3.IntVal(S)) * S) / z3.IntVal(vn)
+                        ctx.bad('transfer-value-not-as-prescribed', z3.And(wn != one_step, wn != two_step))
+        if prev is not None and tag == 'transfer' and not msg.startswith(SURPLUS_MSG):
+            ctx.reach('exclusion-transfer-checked')
+            for i in range(len(bs)):
+                if W[i] != PW[i]:
+                    ctx.bad('exclusion-changed-a-ballot-value', TRUE)
+        prev = sn
+        PW = W
+
+
+mon_C06.needs_snaps = True
+
+
+# ---------------------------------------------------------------------------------------------------
+# C07
+
+def _tie_names(msg):
+    names = msg[msg.index('[') + 1:msg.rindex(']')].split(', ')
+    chosen = msg.split('-> ')[-1]
+    return names, chosen
+
+
+def mon_C07(ctx):
+    if ctx.exc is not None:
+        return
+    E = ctx.E
+    acts = ctx.acts
+    method = ctx.method
+    n2c = name2cid(ctx)
+    seats = ctx.seats
+    und = set(ctx.U.undeclared) if ctx.rule == 'mpls' else set()
+    ts = ctx.ts
+    if ts is None:
+        tr = {c.cid: z3.IntVal(c.tieOrder) for c in E.C}
+    else:
+        tr = {cid: ts[cid - 1] for cid in range(1, ctx.n + 1)}
+
+    def key_of(s):
+        "the quantity a rule ranks candidates by"
+        return num(ctx, s['quotient']) if method == 'qpq' else num(ctx, s['vote'])
+
+    # --- ties: chosen has the minimum rank among those named
+    for i, A in enumerate(acts):
+        if A['tag'] != 'tie':
+            continue
+        ctx.reach('tie')
+        names, chosen = _tie_names(A['msg'])
+        if chosen not in names or any(nm not in n2c for nm in names):
+            ctx.bad('tie-message-inconsistent', TRUE)
+            continue
+        if 'prior stage' in A['msg']:
+            ctx.reach('tie-by-prior-stage')
+            continue
+        for nm in names:
+            if nm != chosen:
+                ctx.bad('tie-not-resolved-by-declared-order', tr[n2c[nm]] < tr[n2c[chosen]])
+    # --- exclusions
+    i = 0
+    while i < len(acts):
+        if acts[i]['tag'] != 'defeat' or i == 0:
+            i += 1
+            continue
+        j = i
+        while j < len(acts) and acts[j]['tag'] == 'defeat':
+            j += 1
+        ref = acts[i - 1]
+        tie_before = ref['tag'] == 'tie'
+        rcs = ref['cstate']
+        cs = acts[j - 1]['cstate'] if method != 'qpq' else acts[i]['cstate']
+        if method == 'qpq':
+            rcs = acts[i]['cstate']     # quotients are computed after the 'round' snapshot; the defeat snapshot carries them
+            grp = [c for c in rcs if rcs[c]['state'] == 'defeated' and ref['cstate'][c]['state'] == 'hopeful']
+            hop = [c for c in rcs if rcs[c]['state'] == 'hopeful'] + grp
+        else:
+            grp = [c for c in rcs if rcs[c]['state'] == 'hopeful' and acts[j - 1]['cstate'][c]['state'] == 'defeated']
+            hop = [c for c in rcs if rcs[c]['state'] == 'hopeful']
+        nel = sum(1 for s in ref['cstate'].values() if s['state'] == 'elected')
+        cleanup = nel >= seats
+        g_und = [c for c in grp if c in und]
+        g2 = [c for c in grp if c not in und]
+        if not cleanup and g2:
+            rest = [c for c in hop if c not in grp]
+            q = num(ctx, ref['quota'])
+            if method == 'wigm':
+                pend = [s for c, s in rcs.items() if (s['state'] == 'elected' and s.get('pending')) or
+                        (ctx.rule == 'mpls' and s['state'] == 'hopeful' and c not in und)]
+                sur_terms = []
+                for s in pend:
+                    v = num(ctx, s['vote'])
+                    # surplus (not below zero)
+                    if rec.is_rational(E.V):
+                        d = (v[0] * q[1] - q[0] * v[1], v[1] * q[1])
+                        sur_terms.append((z3.If(d[0] > 0, d[0], 0), d[1]))
+                    else:
+                        sur_terms.append((z3.If(v[0] > q[0], v[0] - q[0], 0), v[1]))
+                undv = [num(ctx, rcs[c]['vote']) for c in g_und]
+                base = S1 = ctx.S if not rec.is_rational(E.V) else 1
+                gv = VOps.sum([num(ctx, rcs[c]['vote']) for c in g2] + sur_terms + undv, base)
+                if len(g2) == 1:
+                    d = g2[0]
+                    dv = num(ctx, rcs[d]['vote'])
+                    lowest = z3.And([a_le(ctx, dv, num(ctx, rcs[h]['vote'])) for h in rest] + [TRUE])
+                    sure = z3.And([a_lt(ctx, gv, num(ctx, rcs[h]['vote'])) for h in rest] + [TRUE])
+                    ctx.reach('single-exclusion')
+                    ctx.bad('excluded-neither-lowest-nor-sure-loser', z3.Not(z3.Or(lowest, sure)))
+                    if not tie_before and 'batch' not in acts[i]['msg'] and 'sure' not in acts[i]['msg'] and 'certain' not in acts[i]['msg']:
+                        # unlogged tie: nobody else may share the lowest tally
+                        ctx.bad('tie-for-exclusion-not-logged', z3.And(lowest, z3.Or([a_eq(ctx, dv, num(ctx, rcs[h]['vote'])) for h in rest] + [z3.BoolVal(False)])))
+                else:
+                    ctx.reach('batch-exclusion')
+                    zero_batch = ctx.rule == 'wigm' and 'batch(zero)' in acts[i]['msg']
+                    for h in rest:
+                        if zero_batch:
+                            ctx.bad('zero-batch-member-has-votes', z3.Or([num(ctx, rcs[c]['vote'])[0] != 0 for c in g2]))
+                        else:
+                            ctx.bad('batch-not-sure-losers', z3.Not(a_lt(ctx, gv, num(ctx, rcs[h]['vote']))))
+                    if len(rest) + nel < seats:
+                        ctx.bad('batch-leaves-too-few-candidates', TRUE)
+            elif method == 'meek':
+                sur = num(ctx, ref['surplus'])
+                base = ctx.S if not rec.is_rational(E.V) else 1
+                if len(g2) == 1:
+                    d = g2[0]
+                    dv = num(ctx, rcs[d]['vote'])
+                    ctx.reach('single-exclusion')
+                    for h in rest:
+                        # lowest within the current total surplus: d.vote <= h.vote + surplus
+                        ctx.bad('excluded-not-lowest-within-surplus', a_lt(ctx, VOps.add(num(ctx, rcs[h]['vote']), sur), dv))
+                    if not tie_before:
+                        # no other hopeful within the surplus of the lowest tally (else a tie should have been logged)
+                        for h in rest:
+                            lowv = dv
+                            ctx.bad('tie-for-exclusion-not-logged',
+                                    z3.And(z3.And([a_le(ctx, dv, num(ctx, rcs[x]['vote'])) for x in rest] + [TRUE]),
+                                           a_le(ctx, num(ctx, rcs[h]['vote']), VOps.add(lowv, sur))))
+                else:
+                    ctx.reach('batch-exclusion')
+                    gv = VOps.sum([num(ctx, rcs[c]['vote']) for c in g2] + [sur], base)
+                    for h in rest:
+                        ctx.bad('batch-not-sure-losers', z3.Not(a_lt(ctx, gv, num(ctx, rcs[h]['vote']))))
+                    if len(rest) + nel < seats:
+                        ctx.bad('batch-leaves-too-few-candidates', TRUE)
+            elif method == 'qpq':
+                ctx.reach('single-exclusion')
+                if len(g2) != 1:
+                    ctx.bad('qpq-multiple-exclusion', TRUE)
+                else:
+                    d = g2[0]
+                    dq = num(ctx, rcs[d]['quotient'])
+                    for h in rest:
+                        ctx.bad('excluded-not-lowest-quotient', a_lt(ctx, num(ctx, rcs[h]['quotient']), dq))
+                    if not tie_before:
+                        ctx.bad('tie-for-exclusion-not-logged', z3.Or([a_eq(ctx, dq, num(ctx, rcs[h]['quotient'])) for h in rest] + [z3.BoolVal(False)]))
+        i = j
+    # --- largest surplus first
+    for i, A in enumerate(acts):
+        if A['tag'] == 'unpend' and i > 0 and ctx.rule in ('wigm', 'wigm-prf', 'wigm-prf-batch', 'scotland'):
+            ref = acts[i - 1]
+            rcs = ref['cstate']
+            now = [c for c in rcs if rcs[c].get('pending') and not A['cstate'][c].get('pending')]
+            pend = [c for c in rcs if rcs[c]['state'] == 'elected' and rcs[c].get('pending')]
+            if len(now) != 1:
+                ctx.bad('unpend-without-candidate', TRUE)
+                continue
+            ctx.reach('surplus-choice')
+            cv = num(ctx, rcs[now[0]]['vote'])
+            for p_ in pend:
+                if p_ != now[0]:
+                    ctx.bad('surplus-not-largest-first', a_lt(ctx, cv, num(ctx, rcs[p_]['vote'])))
+                    if ref['tag'] != 'tie':
+                        ctx.bad('tie-for-surplus-not-logged', a_eq(ctx, cv, num(ctx, rcs[p_]['vote'])))
+        if A['tag'] == 'elect' and ctx.rule == 'mpls' and i > 0 and A['msg'].startswith('Elect:'):
+            ref = acts[i - 1]
+            rcs = ref['cstate']
+            now = [c for c in rcs if rcs[c]['state'] == 'hopeful' and A['cstate'][c]['state'] == 'elected']
+            if len(now) == 1:
+                ctx.reach('surplus-choice')
+                cv = num(ctx, rcs[now[0]]['vote'])
+                for c, s in rcs.items():
+                    if s['state'] == 'hopeful' and c != now[0] and c not in und:
+                        ctx.bad('surplus-not-largest-first', a_lt(ctx, cv, num(ctx, s['vote'])))
+                        if ref['tag'] != 'tie':
+                            ctx.bad('tie-for-surplus-not-logged', a_eq(ctx, cv, num(ctx, s['vote'])))
+
+
+# ---------------------------------------------------------------------------------------------------
+# C08
+
+def mon_C08(ctx):
+    if ctx.exc is not None or ctx.method != 'meek':
+        return
+    E = ctx.E
+    S = ctx.S
+    N = ctx.N
+    rational = rec.is_rational(E.V)
+    acts = ctx.acts
+    omega = num(ctx, E.rule.omega)
+    dirty = False
+    iter_end_in_round = False
+    one = (z3.IntVal(S), S) if not rational else (z3.IntVal(1), 1)
+    logs = E.erecord['actions']
+    for k, A in enumerate(acts):
+        tag = A['tag']
+        if tag == 'round':
+            dirty = False
+            iter_end_in_round = False
+        if ctx.rule == 'meek-prf':
+            clean = tag in ('begin', 'end') or (tag in ('elect', 'tie', 'defeat') and not dirty)
+            if tag in ('elect', 'tie', 'defeat') and not dirty:
+                iter_end_in_round = True      # meek-prf logs no 'iterate'; these follow an iteration step
+        else:
+            clean = tag in ('iterate', 'end')
+            if tag == 'iterate':
+                iter_end_in_round = True
+        cs = A['cstate']
+        if clean:
+            ctx.reach('clean-snapshot')
+            votes = [num(ctx, s['vote']) for c, s in cs.items() if 'vote' in s]
+            res = num(ctx, A['residual'])
+            base = S if not rational else 1
+            tot = VOps.sum(votes + [res], base)
+            ctx.bad('votes-plus-residual-differ-from-ballots:%s' % tag, tot[0] != N * tot[1])
+            ctx.bad('negative-residual', res[0] < 0)
+            for v in votes:
+                ctx.bad('negative-tally', v[0] < 0)
+            just_defeated = []
+            if tag == 'defeat' and k > 0:
+                # this snapshot shows the distribution *before* the exclusion it announces: the candidate named here still
+                # carries the keep factor (and tally) of a hopeful candidate; they are zeroed after the action is logged
+                just_defeated = [c for c, s in cs.items() if s['state'] == 'defeated' and acts[k - 1]['cstate'][c]['state'] == 'hopeful']
+            for c, s in cs.items():
+                if 'kf' not in s or s['kf'] is None:
+                    if s['state'] != 'withdrawn':
+                        ctx.bad('keep-factor-missing', TRUE)
+                    continue
+                kf = num(ctx, s['kf'])
+                if s['state'] == 'hopeful' or c in just_defeated:
+                    ctx.bad('hopeful-keep-factor-not-one', z3.Not(VOps.eq(kf, one)))
+                elif s['state'] == 'defeated':
+                    ctx.bad('defeated-keep-factor-not-zero', kf[0] != 0)
+                elif s['state'] == 'elected':
+                    ctx.bad('elected-keep-factor-out-of-range', z3.Or(kf[0] <= 0, VOps.lt(one, kf)))
+        if tag == 'iterate':
+            msg = A['msg']
+            sur = num(ctx, A['surplus'])
+            if '(omega)' in msg:
+                ctx.reach('omega-exit')
+                ctx.bad('omega-exit-with-surplus-above-omega', a_lt(ctx, omega, sur))
+            elif '(stable)' in msg:
+                ctx.reach('stable-exit')
+                # the log line precedes it
+                ai = logs.index(A)
+                if ai == 0 or not logs[ai - 1]['msg'].startswith('Stable state detected'):
+                    ctx.bad('stable-exit-not-logged', TRUE)
+            elif '(batch)' in msg:
+                ctx.reach('batch-exit')
+            elif '(elected)' in msg:
+                ctx.reach('elected-exit')
+            else:
+                ctx.bad('unknown-iteration-exit', TRUE)
+        if tag == 'defeat':
+            nel = sum(1 for s in acts[k - 1]['cstate'].values() if s['state'] == 'elected') if k else 0
+            if nel < ctx.seats and 'remaining' not in A['msg']:
+                if ctx.rule == 'meek-prf':
+                    sur = num(ctx, A['surplus'])
+                    if 'omega' in A['msg']:
+                        ctx.reach('omega-exit')
+                        ctx.bad('omega-exit-with-surplus-not-below-omega', z3.Not(a_lt(ctx, sur, omega)))
+                    if not iter_end_in_round and not dirty:
+                        pass
+                elif not iter_end_in_round:
+                    ctx.bad('exclusion-without-end-of-iteration', TRUE)
+            dirty = True
+
+
+# ---------------------------------------------------------------------------------------------------
+# C18 (audit-trail part; renderings are checked by the marker run)
+
+def mon_C18(ctx):
+    if ctx.exc is not None:
+        return
+    E = ctx.E
+    acts = ctx.acts
+    n2c = name2cid(ctx)
+    if not acts:
+        ctx.bad('empty-record', TRUE)
+        return
+    first = acts[0]['tag']
+    if first != 'begin' and not (ctx.rule == 'mpls' and first == 'round'):
+        ctx.bad('first-action-%s' % first, TRUE)
+    if acts[-1]['tag'] != 'end' or any(a['tag'] == 'end' for a in acts[:-1]):
+        ctx.bad('end-action-misplaced', TRUE)
+    prev = None
+    for A in acts:
+        cs = A['cstate']
+        if prev is not None:
+            pcs = prev['cstate']
+            st_changed = [c for c in cs if cs[c]['state'] != pcs[c]['state']]
+            pend_cleared = [c for c in cs if pcs[c].get('pending') and not cs[c].get('pending')]
+            named = None
+            if A['tag'] in ('elect', 'defeat'):
+                nm = A['msg'].split(': ', 1)[1] if ': ' in A['msg'] else None
+                named = n2c.get(nm)
+                if named is None:
+                    ctx.bad('%s-names-nobody' % A['tag'], TRUE)
+            if A['tag'] == 'defeat' and named is not None:
+                if not (named in st_changed and cs[named]['state'] == 'defeated'):
+                    ctx.bad('defeat-names-candidate-whose-status-does-not-change', TRUE)
+            if A['tag'] == 'elect' and named is not None:
+                if not ((named in st_changed and cs[named]['state'] == 'elected') or named in pend_cleared):
+                    ctx.bad('elect-names-candidate-whose-status-does-not-change', TRUE)
+            extra = [c for c in st_changed if c != named]
+            if ctx.rule == 'qpq':
+                extra = [c for c in extra if not (pcs[c]['state'] == 'elected' and cs[c]['state'] == 'hopeful')]
+            if extra:
+                ctx.bad('unlisted-status-change:%s' % A['tag'], TRUE)
+        else:
+            # the first snapshot: everybody not withdrawn is hopeful (nothing happened before the record starts)
+            for c, s in cs.items():
+                if s['state'] not in ('hopeful', 'withdrawn'):
+                    ctx.bad('status-change-before-first-action', TRUE)
+        prev = A
+    fin = acts[-1]['cstate']
+    if set(c for c in fin if fin[c]['state'] == 'elected') != set(c.cid for c in E.elected):
+        ctx.bad('final-elected-set-differs', TRUE)
+    if set(c for c in fin if fin[c]['state'] == 'defeated') != set(c.cid for c in E.defeated):
+        ctx.bad('final-defeated-set-differs', TRUE)
+    ctx.reach('audit-trail-walked')
